@@ -61,6 +61,13 @@ func c06Cells(tier string) []Cell {
 				cells = append(cells, Cell{ID: c06Cell{Front: front, Path: path, Caller: caller, Cancel: "never"}.id()})
 			}
 		}
+
+		// builds that fail
+		for _, path := range []string{"failA", "failSu", "failBg"} {
+			for _, caller := range []string{"none", "0", "10s", "1h", "-1s"} {
+				cells = append(cells, Cell{ID: c06Cell{Front: front, Path: path, Caller: caller, Cancel: "never"}.id()})
+			}
+		}
 	}
 
 	return cells
@@ -225,6 +232,17 @@ func c06Run(c Cell, env *Env) CellResult {
 		cfg.Init = "T"
 		w := GOp{Key: 0, TTL: 7}
 		cfg.Threads = [][]GOp{{op}, {w}}
+	case "failA", "failSu", "failBg":
+		// the build FAILS: what the builder communicated is applied as documented, nothing else touches the caller's context
+		cfg.Script = "f"
+		cfg.Init = "A"
+
+		if cc.Path != "failA" {
+			cfg.Init = "S"
+			cfg.SU = cc.Path == "failSu"
+		}
+
+		cfg.Threads = [][]GOp{{op}}
 	case "skipF", "skipA", "skipS", "skipT", "skipAE", "skipSE", "skipFE":
 		cfg.Init = cc.Path[4:5]
 		if strings.HasSuffix(cc.Path[5:], "E") {
@@ -270,6 +288,30 @@ func c06Run(c Cell, env *Env) CellResult {
 
 			if r.Deadlock || r.Panic != nil {
 				bad("fatal", fmt.Sprintf("deadlock=%v panic=%v", r.Deadlock, r.Panic))
+				return vs
+			}
+
+			if strings.HasPrefix(cc.Path, "fail") {
+				if h.nbuild[0] != 1 {
+					bad("fail-build-count", fmt.Sprintf("builder invoked %d times, want 1", h.nbuild[0]))
+				}
+
+				for _, e := range h.log {
+					if e.Kind == "write" && e.Tok.O == "b" {
+						bad("fail-stored", fmt.Sprintf("a failed build stored %v", e.Tok))
+					}
+
+					if e.Kind == "write" && e.Tok.O != "b" && e.TTL != updateTTL {
+						bad("refresh-ttl", fmt.Sprintf("stale value re-stored with TTL %v, want UpdateTTL %v", e.TTL, updateTTL))
+					}
+				}
+
+				for _, ctx := range h.ctxs {
+					if got := cache.TTL(ctx); got != want {
+						bad("caller-cell-after-failure", fmt.Sprintf("caller's context TTL after a Get whose build failed is %v, documented %v (only the builder's updateExisting=true calls reach it)", got, want))
+					}
+				}
+
 				return vs
 			}
 
@@ -460,7 +502,7 @@ func init() {
 	Register(&Prop{
 		ID: "C06", Title: "TTL and context travel through Failover as documented",
 		Cells: c06Cells, Run: c06Run,
-		Rule: "grid caller TTL {no cell, 0, 10s, 1h, -1s} x builder behaviour (every sequence of <=2 (quick: 73) / <=3 (thorough: 585) WithTTL(ctx,b,upd) calls, b in {0,5s,2h,-1s}, upd in {true,false}) x path {cold miss, sync update of a stale value, background update, waiter, cold miss and background update with NESTED builder scopes, SkipRead on a fresh entry; a SkipRead Get next to a plain Get on a stale key (sync / background update, SyncRead on / off); SkipRead on an absent / stale / too stale entry and with a failure cached for the key (uncancelled caller only)} " +
+		Rule: "grid caller TTL {no cell, 0, 10s, 1h, -1s} x builder behaviour (every sequence of <=2 (quick: 73) / <=3 (thorough: 585) WithTTL(ctx,b,upd) calls, b in {0,5s,2h,-1s}, upd in {true,false}) x path {cold miss, sync update of a stale value, background update, waiter, cold miss and background update with NESTED builder scopes, SkipRead on a fresh entry; a SkipRead Get next to a plain Get on a stale key (sync / background update, SyncRead on / off); SkipRead on an absent / stale / too stale entry and with a failure cached for the key (uncancelled caller only); a build that FAILS on a cold miss / sync update / background update} " +
 			"x caller context {never cancelled, cancelled before, cancelled after, carrying a deadline} x 3 front-ends; each case under the scheduler with all schedules (unbounded, HB cached); a recording backend wrapper notes TTL(ctx) of every Write, the builder notes Err/Done/Deadline/Value of its context",
 		Assumptions: []string{
 			"'smallest non-zero' is taken over signed durations (a negative TTL is smaller than any positive one), as the implementation's comparison does",
